@@ -810,6 +810,41 @@ def canonical_node_builder(repo: Repo) -> Tuple[str, ast.AST, Dict[str, List[ast
     return res
 
 
+def _pairs_unpacked(fn: ast.AST) -> ast.AST:
+    """A copy of the config roll-up in which a comprehension that reads its element - a (uuid, semantic id) pair, by the
+    contract of the parameter - as `p[0]` and `p[1]` (both, nothing else of `p`) unpacks it in the target instead:
+    `{p[0]: p[1] for p in pairs}` -> `{p__0: p__1 for (p__0, p__1) in pairs}`.  Same value; `derives_whole` takes an
+    element subscript for "a part of the element", which is right for everything but a pair read whole."""
+    import copy
+
+    fn = copy.deepcopy(fn)
+    fn.__dict__.pop("_c05_nodes", None)
+    for comp in [n for n in ast.walk(fn) if isinstance(n, (ast.ListComp, ast.SetComp, ast.GeneratorExp, ast.DictComp))]:
+        if len(comp.generators) != 1 or not isinstance(comp.generators[0].target, ast.Name):
+            continue
+        g = comp.generators[0]
+        t = g.target.id
+        body = ([comp.key, comp.value] if isinstance(comp, ast.DictComp) else [comp.elt]) + list(g.ifs)
+        subs = [x for b in body for x in ast.walk(b) if isinstance(x, ast.Subscript) and isinstance(x.value, ast.Name) and x.value.id == t and isinstance(x.slice, ast.Constant) and x.slice.value in (0, 1)]
+        uses = [x for b in body for x in ast.walk(b) if isinstance(x, ast.Name) and x.id == t]
+        if len(uses) != len(subs) or {x.slice.value for x in subs} != {0, 1}:
+            continue
+
+        class _Sub(ast.NodeTransformer):
+            def visit_Subscript(self, node: ast.Subscript) -> ast.AST:
+                if any(node is x for x in subs):
+                    return ast.copy_location(ast.Name(id=f"{t}__{node.slice.value}", ctx=ast.Load()), node)
+                return self.generic_visit(node)
+
+        if isinstance(comp, ast.DictComp):
+            comp.key, comp.value = _Sub().visit(comp.key), _Sub().visit(comp.value)
+        else:
+            comp.elt = _Sub().visit(comp.elt)
+        g.ifs = [_Sub().visit(x) for x in g.ifs]
+        g.target = ast.copy_location(ast.Tuple(elts=[ast.Name(id=f"{t}__0", ctx=ast.Store()), ast.Name(id=f"{t}__1", ctx=ast.Store())], ctx=ast.Store()), g.target)
+    return fn
+
+
 def field_coverage(repo: Repo, R: Report) -> None:
     r = R.rule("C05-D1-field-coverage", "every identity-bearing field reaches the bytes that are hashed: node uuid <- whole canonical node (role, processor_ref, full-depth params, ports, declaration index); node semantic id <- whole sweep metadata minus exactly the UI-only keys; pipeline semantic id <- node uuid and node semantic id of every node in order; config id <- every (uuid, semantic id) pair; pipeline id <- whole canonical graph", 16)
     # --- node uuid: the mapping serialised into the name of uuid5 is the complete canonical node
@@ -923,7 +958,7 @@ def field_coverage(repo: Repo, R: Report) -> None:
     R.check(ok, r, SEM, "compute_pipeline_semantic_id", "node_semantic_id = compute_node_semantic_id(node['preprocessor_metadata'])", "the rolled-up node semantic id is not computed from the node's preprocessor metadata", cps.lineno)
     R.check(bool(lists), r, SEM, "compute_pipeline_semantic_id", "hash(json.dumps(pipeline_structure))", "the per-node structure is not what gets hashed", cps.lineno)
     # --- config id
-    cpc = NF(repo, SEM, "compute_pipeline_config_id")
+    cpc = _pairs_unpacked(NF(repo, SEM, "compute_pipeline_config_id"))
     roots = set(_params_of(cpc)[:1])
     rets = [x.value for x in walk_no_nested(cpc) if isinstance(x, ast.Return) and x.value is not None]
     hs = [c for rv in rets for c in calls_to(flow(cpc, rv), "dumps", "_sha256_json")]
@@ -3277,6 +3312,413 @@ def config_pairs_cover_every_node(repo: Repo, R: Report) -> None:
 
 
 # ---------------------------------------------------------------------------------------------------------
+# D1d  a roll-up that keys the pairs by one component is keyed by the node uuid at every caller
+# ---------------------------------------------------------------------------------------------------------
+
+NODE_SEM = "compute_node_semantic_id"
+UUID_KEYS = {"node_uuid", "uuid"}
+_PAIR_WRAPPERS = {"list", "tuple", "sorted", "reversed", "iter", "cast", "deepcopy", "copy"}
+_STR_WRAPPERS = {"str", "cast"}
+
+
+def _pairs_perm(fn: ast.AST, e: Optional[ast.AST], roots: Set[str], _seen: Optional[Set[str]] = None) -> Optional[Tuple[int, int]]:
+    """*e* is the sequence of pairs the function received (one of *roots*), re-listed / sorted / copied, possibly
+    with the two components re-arranged by a comprehension: the permutation (component 0 of an element of *e* is
+    component perm[0] of the pair received).  None: not (recognisably) the received pairs."""
+    _seen = _seen if _seen is not None else set()
+    if isinstance(e, ast.Name):
+        if e.id in roots:
+            return (0, 1)
+        if e.id in _seen:
+            return None
+        _seen.add(e.id)
+        vals = assigned_value(fn, e.id)
+        perms = {_pairs_perm(fn, v, roots, _seen) for v in vals}
+        return perms.pop() if len(perms) == 1 else None
+    if isinstance(e, ast.Call):
+        nm = call_attr(e)
+        if isinstance(e.func, ast.Name) and nm in _PAIR_WRAPPERS and e.args:
+            return _pairs_perm(fn, e.args[-1] if nm == "cast" else e.args[0], roots, _seen)
+        if isinstance(e.func, ast.Attribute) and nm == "copy" and not e.args:
+            return _pairs_perm(fn, e.func.value, roots, _seen)
+        return None
+    if isinstance(e, (ast.ListComp, ast.GeneratorExp)) and len(e.generators) == 1 and not e.generators[0].ifs:
+        g = e.generators[0]
+        inner = _pairs_perm(fn, g.iter, roots, _seen)
+        if inner is None:
+            return None
+        if isinstance(e.elt, ast.Name) and isinstance(g.target, ast.Name) and e.elt.id == g.target.id:
+            return inner
+        if isinstance(e.elt, ast.Tuple) and len(e.elt.elts) == 2:
+            idx = [_component_indices(c, g.target) for c in e.elt.elts]
+            if all(i is not None and len(i) == 1 for i in idx):
+                a, b = (next(iter(i)) for i in idx)
+                return (inner[a], inner[b])
+    return None
+
+
+def _component_indices(k: ast.AST, target: ast.AST) -> Optional[Set[int]]:
+    """The components of the pair bound to *target* (a `(a, b)` tuple of names, or one name read as `p[0]` / `p[1]`)
+    that the expression *k* is computed from; None when the binding has another shape."""
+    names = {x.id for x in ast.walk(k) if isinstance(x, ast.Name)}
+    if isinstance(target, (ast.Tuple, ast.List)) and len(target.elts) == 2 and all(isinstance(t, ast.Name) for t in target.elts):
+        return {i for i, t in enumerate(target.elts) if t.id in names}
+    if isinstance(target, ast.Name):
+        out: Set[int] = set()
+        sub_ids: Set[int] = set()
+        for x in ast.walk(k):
+            if isinstance(x, ast.Subscript) and isinstance(x.value, ast.Name) and x.value.id == target.id and isinstance(x.slice, ast.Constant) and x.slice.value in (0, 1, -1, -2):
+                out.add(x.slice.value % 2)
+                sub_ids.add(id(x.value))
+        if any(isinstance(x, ast.Name) and x.id == target.id and id(x) not in sub_ids for x in ast.walk(k)):
+            return {0, 1}
+        return out
+    return None
+
+
+def _keyed_collapses(fn: ast.AST, hashed: List[ast.AST], roots: Set[str]) -> List[Tuple[ast.AST, Set[int], str]]:
+    """Constructs on the way from the received pairs to the hashed value that keep ONE pair per value of a key computed
+    from the pair: `dict(pairs)`, a mapping comprehension / a loop of subscript stores over the pairs, `set(pairs)` ..
+    -> (construct, components of the received pair the key is computed from, wording)."""
+    out: List[Tuple[ast.AST, Set[int], str]] = []
+    hashed_ids = {id(x) for x in hashed}
+    hashed_names = {x.id for x in hashed if isinstance(x, ast.Name)}
+    for x in hashed:
+        if isinstance(x, ast.Call):
+            nm = call_attr(x)
+            if nm in ("dict", "OrderedDict") and len(x.args) == 1 and isinstance(x.func, ast.Name):
+                p = _pairs_perm(fn, x.args[0], roots)
+                if p is not None:
+                    out.append((x, {p[0]}, f"`{_u(x)[:60]}` keeps one pair per first component"))
+            elif nm in ("set", "frozenset", "fromkeys") and x.args:
+                p = _pairs_perm(fn, x.args[0], roots)
+                if p is not None:
+                    out.append((x, {0, 1}, f"`{_u(x)[:60]}` keeps one of several equal pairs"))
+        elif isinstance(x, (ast.DictComp, ast.SetComp)) and len(x.generators) == 1:
+            g = x.generators[0]
+            p = _pairs_perm(fn, g.iter, roots)
+            if p is None:
+                continue
+            k = x.key if isinstance(x, ast.DictComp) else x.elt
+            idx = _component_indices(k, g.target)
+            if idx is not None:
+                out.append((x, {p[i] for i in idx}, f"`{_u(x)[:70]}` keeps one pair per value of `{_u(k)[:40]}`"))
+    for n in _fn_stmts(fn):
+        if not isinstance(n, (ast.For, ast.AsyncFor)):
+            continue
+        p = _pairs_perm(fn, n.iter, roots)
+        if p is None:
+            continue
+        for s in ast.walk(n):
+            k: Optional[ast.AST] = None
+            recv: Optional[ast.AST] = None
+            if isinstance(s, ast.Assign):
+                for t in s.targets:
+                    if isinstance(t, ast.Subscript) and isinstance(t.value, ast.Name):
+                        k, recv = t.slice, t.value
+            elif isinstance(s, ast.Call) and isinstance(s.func, ast.Attribute) and s.func.attr in ("setdefault", "__setitem__") and s.args and isinstance(s.func.value, ast.Name):
+                k, recv = s.args[0], s.func.value
+            elif isinstance(s, ast.Call) and isinstance(s.func, ast.Attribute) and s.func.attr == "add" and len(s.args) == 1 and isinstance(s.func.value, ast.Name):
+                k, recv = s.args[0], s.func.value
+            if k is None or recv is None or recv.id not in hashed_names:
+                continue
+            kk = k
+            if isinstance(k, ast.Name):  # a key named in the loop body
+                inner = [v for v in assigned_value(fn, k.id) if any(a is n for a in ancestors(v))]
+                if len(inner) == 1:
+                    kk = inner[0]
+            idx = _component_indices(kk, n.target)
+            if idx is not None:
+                out.append((s, {p[i] for i in idx}, f"`{norm(s if isinstance(s, ast.stmt) else stmt_of(s))[:70]}` keeps one pair per value of `{_u(kk)[:40]}`"))
+    _ = hashed_ids
+    return out
+
+
+def _iteration_bindings(fn: ast.AST) -> Dict[str, List[ast.AST]]:
+    """name -> sequences whose elements it is bound to (for / comprehension targets, also as the element of enumerate)."""
+    out: Dict[str, List[ast.AST]] = {}
+
+    def bind(target: ast.AST, it: ast.AST) -> None:
+        if isinstance(it, ast.Call) and call_attr(it) == "enumerate" and it.args and isinstance(target, (ast.Tuple, ast.List)) and len(target.elts) == 2:
+            bind(target.elts[1], it.args[0])
+        elif isinstance(target, ast.Name):
+            out.setdefault(target.id, []).append(it)
+
+    for n in _fn_stmts(fn):
+        if isinstance(n, (ast.For, ast.AsyncFor)):
+            bind(n.target, n.iter)
+        elif isinstance(n, ast.comprehension):
+            bind(n.target, n.iter)
+    return out
+
+
+def _elements_of(fn: ast.AST, seq: Optional[ast.AST], _seen: Optional[Set[str]] = None) -> List[ast.AST]:
+    """Expressions that become elements of the sequence *seq* built in *fn* (appended values, comprehension elements,
+    list displays), through copies; [] when it is not built here."""
+    _seen = _seen if _seen is not None else set()
+    if isinstance(seq, ast.Name):
+        if seq.id in _seen:
+            return []
+        _seen.add(seq.id)
+        out: List[ast.AST] = []
+        for v in assigned_value(fn, seq.id):
+            out.extend(_elements_of(fn, v, _seen))
+        for n in _fn_stmts(fn):
+            if isinstance(n, ast.Call) and isinstance(n.func, ast.Attribute) and isinstance(n.func.value, ast.Name) and n.func.value.id == seq.id:
+                if n.func.attr in ("append", "add", "appendleft") and len(n.args) == 1:
+                    out.append(n.args[0])
+                elif n.func.attr == "insert" and len(n.args) == 2:
+                    out.append(n.args[1])
+                elif n.func.attr == "extend" and n.args:
+                    out.extend(_elements_of(fn, n.args[0], _seen))
+            elif isinstance(n, ast.AugAssign) and isinstance(n.op, ast.Add) and isinstance(n.target, ast.Name) and n.target.id == seq.id:
+                out.extend(_elements_of(fn, n.value, _seen))
+        return out
+    if isinstance(seq, (ast.List, ast.Tuple, ast.Set)):
+        return [e for e in seq.elts if not isinstance(e, ast.Starred)]
+    if isinstance(seq, (ast.ListComp, ast.GeneratorExp, ast.SetComp)):
+        return [seq.elt]
+    if isinstance(seq, ast.Call):
+        nm = call_attr(seq)
+        if isinstance(seq.func, ast.Name) and nm in _PAIR_WRAPPERS and seq.args:
+            return _elements_of(fn, seq.args[-1] if nm == "cast" else seq.args[0], _seen)
+        if isinstance(seq.func, ast.Attribute) and nm == "copy" and not seq.args:
+            return _elements_of(fn, seq.func.value, _seen)
+    if isinstance(seq, ast.IfExp):
+        return _elements_of(fn, seq.body, _seen) + _elements_of(fn, seq.orelse, _seen)
+    return []
+
+
+class _PairSite:
+    def __init__(self, node: ast.AST, comps: List[Optional[ast.AST]], keyed: bool) -> None:
+        self.node, self.comps, self.keyed = node, comps, keyed
+
+
+def _pair_sites(fn: ast.AST, seq: Optional[ast.AST], _seen: Optional[Set[str]] = None) -> List[_PairSite]:
+    """Where the elements of the pair sequence *seq* are put together in *fn*: 2-tuples (appended, comprehension
+    elements, displays), `zip(A, B)` (components: the elements of A and of B) and the items of a mapping built here
+    (components: key and value; *keyed*: one pair per key)."""
+    _seen = _seen if _seen is not None else set()
+    out: List[_PairSite] = []
+    if isinstance(seq, ast.Call):
+        nm = call_attr(seq)
+        if isinstance(seq.func, ast.Name) and nm == "zip" and len(seq.args) == 2:
+            comps: List[Optional[ast.AST]] = []
+            for a in seq.args:
+                els = _elements_of(fn, a)
+                comps.append(els[0] if len(els) == 1 else None)
+            return [_PairSite(seq, comps, False)]
+        if isinstance(seq.func, ast.Name) and nm in _PAIR_WRAPPERS and seq.args:
+            return _pair_sites(fn, seq.args[-1] if nm == "cast" else seq.args[0], _seen)
+        if isinstance(seq.func, ast.Attribute) and nm == "copy" and not seq.args:
+            return _pair_sites(fn, seq.func.value, _seen)
+        if isinstance(seq.func, ast.Attribute) and nm == "items" and not seq.args:
+            return _mapping_sites(fn, seq.func.value, set())
+        return []
+    if isinstance(seq, ast.Name):
+        if seq.id in _seen:
+            return []
+        _seen.add(seq.id)
+        for v in assigned_value(fn, seq.id):
+            if not _is_empty_container(v):
+                out.extend(_pair_sites(fn, v, _seen))
+        for n in _fn_stmts(fn):
+            if isinstance(n, ast.Call) and isinstance(n.func, ast.Attribute) and isinstance(n.func.value, ast.Name) and n.func.value.id == seq.id:
+                if n.func.attr in ("append", "appendleft", "add") and len(n.args) == 1:
+                    out.extend(_pair_elt(fn, n.args[0], n))
+                elif n.func.attr == "insert" and len(n.args) == 2:
+                    out.extend(_pair_elt(fn, n.args[1], n))
+                elif n.func.attr == "extend" and n.args:
+                    out.extend(_pair_sites(fn, n.args[0], _seen))
+            elif isinstance(n, ast.AugAssign) and isinstance(n.op, ast.Add) and isinstance(n.target, ast.Name) and n.target.id == seq.id:
+                out.extend(_pair_sites(fn, n.value, _seen))
+        return out
+    if isinstance(seq, (ast.List, ast.Tuple)):
+        for e in seq.elts:
+            out.extend(_pair_elt(fn, e, e))
+        return out
+    if isinstance(seq, (ast.ListComp, ast.GeneratorExp)) and len(seq.generators) == 1:
+        g = seq.generators[0]
+        if isinstance(seq.elt, ast.Name) and isinstance(g.target, ast.Name) and seq.elt.id == g.target.id:
+            return _pair_sites(fn, g.iter, _seen)
+        return _pair_elt(fn, seq.elt, seq)
+    if isinstance(seq, ast.IfExp):
+        return _pair_sites(fn, seq.body, _seen) + _pair_sites(fn, seq.orelse, _seen)
+    return out
+
+
+def _pair_elt(fn: ast.AST, e: ast.AST, site: ast.AST) -> List[_PairSite]:
+    if isinstance(e, ast.Tuple) and len(e.elts) == 2 and not any(isinstance(x, ast.Starred) for x in e.elts):
+        return [_PairSite(site, list(e.elts), False)]
+    if isinstance(e, ast.Name):
+        vals = assigned_value(fn, e.id)
+        if len(vals) == 1 and isinstance(vals[0], ast.Tuple) and len(vals[0].elts) == 2:
+            return [_PairSite(site, list(vals[0].elts), False)]
+    return []
+
+
+def _mapping_sites(fn: ast.AST, m: Optional[ast.AST], _seen: Set[str]) -> List[_PairSite]:
+    """(key, value) of every way the mapping *m* is filled in *fn*."""
+    out: List[_PairSite] = []
+    if isinstance(m, ast.DictComp):
+        return [_PairSite(m, [m.key, m.value], True)]
+    if isinstance(m, ast.Call) and call_attr(m) in ("dict", "OrderedDict") and len(m.args) == 1 and not m.keywords:
+        inner = _pair_sites(fn, m.args[0])
+        return [_PairSite(m, s.comps, True) for s in inner]
+    if isinstance(m, ast.Name) and m.id not in _seen:
+        _seen.add(m.id)
+        for v in assigned_value(fn, m.id):
+            if not _is_empty_container(v):
+                out.extend(_mapping_sites(fn, v, _seen))
+        for n in _fn_stmts(fn):
+            if isinstance(n, ast.Assign):
+                for t in n.targets:
+                    if isinstance(t, ast.Subscript) and isinstance(t.value, ast.Name) and t.value.id == m.id and not isinstance(t.slice, ast.Constant):
+                        out.append(_PairSite(n, [t.slice, n.value], True))
+            elif isinstance(n, ast.Call) and isinstance(n.func, ast.Attribute) and n.func.attr in ("setdefault", "__setitem__") and len(n.args) == 2 and isinstance(n.func.value, ast.Name) and n.func.value.id == m.id and not isinstance(n.args[0], ast.Constant):
+                out.append(_PairSite(n, [n.args[0], n.args[1]], True))
+    return out
+
+
+def _identity_role(repo: Repo, rel: str, fn: ast.AST, e: Optional[ast.AST], binds: Dict[str, List[ast.AST]], depth: int = 0, _seen: Optional[Set[str]] = None) -> Set[str]:
+    """What a component of a pair is, by where its value comes from: "uuid" (read from the node-uuid entry of a node
+    mapping - distinct for every node of a pipeline), "sem" (computed by the node semantic id function or read from a
+    node-semantic-id entry: the same for every node without sweep and for identical sweeps), "other".  Constant
+    fall-backs ("" / "none" / "error") are left out."""
+    _seen = _seen if _seen is not None else set()
+    out: Set[str] = set()
+    if e is None or depth > 6:
+        return {"other"}
+    for alt in alternatives(fn, e):
+        if isinstance(alt, ast.Constant):
+            continue
+        if isinstance(alt, ast.BoolOp):
+            for v in alt.values:
+                out |= _identity_role(repo, rel, fn, v, binds, depth + 1, _seen)
+            continue
+        if isinstance(alt, ast.Call) and call_attr(alt) == NODE_SEM:
+            out.add("sem")
+            continue
+        if isinstance(alt, ast.Call) and isinstance(alt.func, ast.Name) and call_attr(alt) in _STR_WRAPPERS and alt.args:
+            out |= _identity_role(repo, rel, fn, alt.args[-1], binds, depth + 1, _seen)
+            continue
+        key: object = None
+        base: Optional[ast.AST] = None
+        if isinstance(alt, ast.Subscript) and isinstance(alt.slice, ast.Constant) and isinstance(alt.slice.value, str):
+            key, base = alt.slice.value, alt.value
+        elif isinstance(alt, ast.Call) and call_attr(alt) == "get" and isinstance(alt.func, ast.Attribute) and alt.args and isinstance(alt.args[0], ast.Constant) and isinstance(alt.args[0].value, str):
+            key, base = alt.args[0].value, alt.func.value
+            for d in alt.args[1:2]:
+                out |= _identity_role(repo, rel, fn, d, binds, depth + 1, _seen)
+        if key is not None:
+            vals: List[ast.AST] = []
+            if isinstance(base, ast.Name):
+                for seq in binds.get(base.id, []):
+                    for el in _elements_of(fn, seq):
+                        try:
+                            vals.extend(mapping_items(repo, rel, fn, el).get(key, []))
+                        except AnalysisError:
+                            pass
+            tag = f"{id(fn)}:{key}:{_u(base)}"
+            if vals and tag not in _seen:
+                _seen.add(tag)
+                for v in vals:
+                    out |= _identity_role(repo, rel, fn, v, binds, depth + 1, _seen)
+            elif key in UUID_KEYS:
+                out.add("uuid")
+            elif isinstance(key, str) and "semantic_id" in key:
+                out.add("sem")
+            else:
+                out.add("other")
+            continue
+        if isinstance(alt, ast.Subscript) and not isinstance(alt.slice, ast.Slice):  # the element at a running position
+            els = _elements_of(fn, alt.value)
+            if els:
+                for el in els:
+                    out |= _identity_role(repo, rel, fn, el, binds, depth + 1, _seen)
+            else:
+                out.add("other")
+            continue
+        if isinstance(alt, ast.Name) and alt.id in binds and alt.id not in _seen:  # an element of a sequence built here
+            _seen.add(alt.id)
+            els = [el for seq in binds[alt.id] for el in _elements_of(fn, seq)]
+            if els:
+                for el in els:
+                    out |= _identity_role(repo, rel, fn, el, binds, depth + 1, _seen)
+                continue
+        out.add("other")
+    return out
+
+
+def config_pairs_keyed_by_uuid(repo: Repo, R: Report) -> None:
+    """`compute_pipeline_config_id` and its callers agree on what a pair is.  As long as the roll-up hashes the pairs as
+    a sequence, the order of the components only changes the value.  A roll-up that turns the pairs into a mapping / set
+    (`dict(pairs)`, `{a: b for a, b in pairs}`) keeps ONE pair per key: that loses nothing only when the key component
+    is, at every caller, the node uuid (distinct for every node of a pipeline).  Keyed by the node semantic id - "none"
+    for every node without sweep - all plain nodes collapse into one entry and a change of any but the last of them
+    never reaches the config id.  The same holds for a caller that collects the pairs in a mapping of its own and hands
+    over its items."""
+    r = R.rule("C05-D1d-config-pairs-keyed-by-node-uuid", "the config id covers one pair per node: where the roll-up (or a caller, before handing the pairs over) turns the (uuid, semantic id) pairs into a mapping / set - one pair per value of a key component - the key component is, at every call site of the package, the node uuid (read from the node-uuid entry of the canonical node), never the node semantic id, which all nodes without sweep and all identical sweeps share; a roll-up that hashes the pairs as a sequence (sorted or not) keeps them all", 1)
+    cpc = NF(repo, SEM, CONFIG_ROLLUP)
+    roots = set(_params_of(cpc)[:1])
+    rets = [x.value for x in walk_no_nested(cpc) if isinstance(x, ast.Return) and x.value is not None]
+    hashed = [x for rv in rets for c in calls_to(flow(cpc, rv), "dumps", "_sha256_json") if c.args for x in flow(cpc, c.args[0])]
+    if not hashed:
+        hashed = [x for rv in rets for x in flow(cpc, rv)]
+    keyed = _keyed_collapses(cpc, hashed, roots)
+    callers: List[Tuple[str, str]] = []
+    for mod, qn, node in repo.all_functions():
+        if any(isinstance(a, FuncNode) for a in ancestors(node)):
+            continue
+        if qn == CONFIG_ROLLUP and mod.rel == SEM:
+            continue
+        if any(call_attr(c) == CONFIG_ROLLUP for c in calls_in(node)):
+            callers.append((mod.rel, qn))
+    sites: List[Tuple[str, str, ast.Call, ast.AST, _PairSite, List[Set[str]]]] = []
+    for rel, qn in sorted(callers):
+        repo.consulted.add(rel)
+        fn = nfunc(repo, rel, qn)
+        binds = _iteration_bindings(fn)
+        for c in calls_in(fn):
+            if call_attr(c) != CONFIG_ROLLUP:
+                continue
+            arg = c.args[0] if c.args else (c.keywords[0].value if c.keywords else None)
+            found = _pair_sites(fn, arg)
+            for s in found:
+                roles = [_identity_role(repo, rel, fn, comp, binds) for comp in s.comps]
+                sites.append((rel, qn, c, fn, s, roles))
+            if keyed and not found:
+                raise AnalysisError(f"{rel}:{qn}: the roll-up keys the pairs by a component, but where `{_u(arg)[:60]}` gets its pairs was not found")
+
+    def describe(s: _PairSite) -> str:
+        return f"({', '.join(_u(c)[:40] if c is not None else '?' for c in s.comps)})"
+
+    # a caller that collects the pairs in a mapping of its own
+    for rel, qn, c, fn, s, roles in sites:
+        if not s.keyed:
+            continue
+        kr = roles[0]
+        st = s.node if isinstance(s.node, ast.stmt) else stmt_of(s.node)
+        if kr == {"uuid"}:
+            R.ok(r, rel, qn, f"pairs collected in a mapping keyed by the node uuid: `{norm(st)[:70]}`", "", getattr(s.node, "lineno", c.lineno))
+        elif "sem" in kr or not kr:
+            R.violation(r, rel, qn, norm(st)[:110], f"the pairs handed to `{_u(c)[:50]}` are the items of a mapping keyed by `{_u(s.comps[0])[:50]}`, which is {'the node semantic id' if 'sem' in kr else 'a constant'}, not the node uuid: nodes that share it (every node without sweep has 'none') collapse into one pair - changing the processor or a parameter of any but the last of them leaves the config id unchanged", getattr(s.node, "lineno", c.lineno))
+    if not keyed:
+        R.ok(r, SEM, CONFIG_ROLLUP, "the pairs are hashed as a sequence (no mapping / set on the way)", "", cpc.lineno)
+        return
+    for node, comps, wording in keyed:
+        for rel, qn, c, fn, s, roles in sites:
+            if any(roles[i] == {"uuid"} for i in comps if i < len(roles)):
+                R.ok(r, SEM, CONFIG_ROLLUP, f"{wording}; {qn} puts the node uuid there: {describe(s)}", "", getattr(node, "lineno", cpc.lineno))
+                continue
+            kr = set().union(*[roles[i] for i in comps if i < len(roles)]) if comps else set()
+            if "other" in kr and "sem" not in kr:
+                raise AnalysisError(f"{SEM}:{CONFIG_ROLLUP} keys the pairs by a component ({wording}); what {rel}:{qn} puts there ({describe(s)}) could not be classified")
+            what = "the node semantic id" if "sem" in kr else "no component of the pair that differs from node to node"
+            R.violation(r, SEM, CONFIG_ROLLUP, norm(node if isinstance(node, ast.stmt) else stmt_of(node))[:110], f"{wording}, and {rel}:{qn} (line {getattr(s.node, 'lineno', c.lineno)}) hands over pairs {describe(s)} whose key component is {what}, not the node uuid: the nodes that share it (every node without sweep has the node semantic id 'none', identical sweeps share theirs) collapse into one pair and only the last one's uuid is hashed - changing the processor or a parameter value of another of them leaves the config id unchanged", getattr(node, "lineno", cpc.lineno))
+
+
+# ---------------------------------------------------------------------------------------------------------
 # D3d  the classes the domain signature tells apart by name are the classes the package builds domains from
 # ---------------------------------------------------------------------------------------------------------
 
@@ -3459,6 +3901,7 @@ def run(repo: Repo, R: Report) -> None:
     canonicalised_config_is_declared(repo, R)
     sweep_field_values_handed_over(repo, R)
     config_pairs_cover_every_node(repo, R)
+    config_pairs_keyed_by_uuid(repo, R)
     domain_classes_known_to_signature(repo, R)
     # an expression signature that merges expressions of different value makes two different sweeps share an id:
     # the discrimination half of C12 (only +/* chains of one operator are flattened; every other position is
